@@ -137,6 +137,9 @@ def h_elig(kind: int, drv: int, e: float, mv: int, mr: int, assigned: bool) -> b
         return False
     if ORACLE == "C20":
         return not (pairs and d == 2)
+    if ORACLE == "C17":
+        # a request that already records a dispatched vehicle (whenever it was assigned, incl. at clock 0) is not offered again
+        return not (pairs and is_assigned)
     if ORACLE == "C10":
         # never pair a vehicle with a request of a fleet it does not belong to
         for vid, rid in pairs:
